@@ -170,7 +170,7 @@ def gen_imports(rng, fs, tier):
     # rejections named by the property
     out.append(("no-nvdim", dict(del_attrs=["nvdim"] + rng.choice([[], list(GEO_ATTRS)]))))
     if fs["nvdim"] > 1:
-        out.append(("no-vdims-axis", dict(rename_vdims=rng.choice(["comp", "vdim", "Vdims", "v"]),
+        out.append(("no-vdims-axis", dict(rename_vdims=rng.choice([x for x in ["comp", "vdim", "Vdims", "v"] if x not in fs["dims"]]),
                                           drop_vdims_coord=rng.random() < 0.5,
                                           del_attrs=rng.choice([[], list(GEO_ATTRS)]))))
         out.append(("nvdim-changed", dict(set_nvdim=rng.choice([k for k in (1, 2, 3, 4, 5) if k != fs["nvdim"]]))))
